@@ -33,4 +33,13 @@ static void c_sq_delete_absent_spec(mi_span_queue_t* sq, mi_slice_t* slice)
 __CPROVER_requires(sq == g_sq && slice == g_sl && slice->prev == NULL && slice->next == NULL && sq->first == g_sfirst && sq->last == g_slast && g_sfirst != g_sl && g_slast != g_sl)
 __CPROVER_assigns(__CPROVER_object_whole(g_sl), __CPROVER_object_whole(g_sq))
 __CPROVER_ensures(sq->first == g_sfirst && sq->last == g_slast && slice->prev == NULL && slice->next == NULL && slice->block_size == 1);
+/* mi_segment_span_remove_from_queue: the span is deleted exactly once, from the queue of ITS size bin (the queue mi_segment_span_free pushed it to:
+   contracts/seg_span.h, pair span_free, uses the same real mi_span_queue_for) -- g_bin is mi_slice_bin(slice_count), computed by the harness with the real function */
+size_t g_sqdel_n; mi_span_queue_t* g_sqdel_sq; mi_slice_t* g_sqdel_slice; size_t g_bin; mi_segments_tld_t* g_stld;
+static void c_sq_delete_rec2(mi_span_queue_t* sq, mi_slice_t* slice)
+__CPROVER_requires(1) __CPROVER_assigns(g_sqdel_n, g_sqdel_sq, g_sqdel_slice) __CPROVER_ensures(g_sqdel_n == __CPROVER_old(g_sqdel_n) + 1 && g_sqdel_sq == sq && g_sqdel_slice == slice);
+static void c_span_remove_spec(mi_slice_t* slice, mi_segments_tld_t* tld)
+__CPROVER_requires(slice == g_sl && tld == g_stld && slice->block_size == 0 && slice->slice_count >= 1 && slice->slice_count <= MI_SLICES_PER_SEGMENT && slice->slice_offset == 0 && g_sqdel_n == 0 && g_bin <= MI_SEGMENT_BIN_MAX)
+__CPROVER_assigns(g_sqdel_n, g_sqdel_sq, g_sqdel_slice)
+__CPROVER_ensures(g_sqdel_n == 1 && g_sqdel_slice == slice && g_sqdel_sq == &tld->spans[g_bin]);
 #endif
